@@ -492,6 +492,7 @@ func c05parent(args []string) error {
 	}
 	next := 0
 	restarts := 0
+	truncated := -1
 	var skipped []string
 	building := -1
 	for next < len(cases) {
@@ -578,11 +579,17 @@ func c05parent(args []string) error {
 				}
 			}
 			restarts++
-			if restarts > 200 {
+			if restarts > 60 {
+				// every restart so far followed a crash or a time-out that has been recorded as an event: the verdict is
+				// already decided by those; the rest of the sweep is not run (and the summary says so)
+				if outcomes["crash"]+outcomes["timeout"] >= 60 {
+					truncated = next
+					break
+				}
 				return fmt.Errorf("too many worker restarts")
 			}
 		}
 	}
-	printJSON(obj{"cases": len(cases), "by_kind": counts, "outcomes": outcomes, "events": ev.N, "worker_restarts": restarts, "objects": len(trees), "objects_left_out_after_failed_construction": len(skipped)})
+	printJSON(obj{"cases": len(cases), "sweep_stopped_at_case_after_60_crashes_or_timeouts": truncated, "by_kind": counts, "outcomes": outcomes, "events": ev.N, "worker_restarts": restarts, "objects": len(trees), "objects_left_out_after_failed_construction": len(skipped)})
 	return nil
 }
